@@ -675,6 +675,16 @@ func checkIPRestrictedHelper(c *km.Ctx, s *km.Sem, rule string) {
 	if nAcc == 0 {
 		c.R.AnchorLost(rule, "accepting return of getUsernameIfIPRestricted")
 	}
+	// the revocation verdict the function acts on is the revocation check's own: the check is called here, and
+	// what is tested are its results (a wrapper that stops waiting and answers "could not check" turns a slow
+	// responder into an admission)
+	nRev := 0
+	for _, ci := range km.CallsIn(fn) {
+		if km.CalleeFull(ci.Common()) == "github.com/cloudflare/cfssl/revoke.VerifyCertificateError" {
+			nRev++
+		}
+	}
+	c.R.Add(rule, km.FuncName(fn), "revocation check", c.P.Pos(fn.Pos()), "revoke.VerifyCertificateError is called by the IP-certificate function itself and its verdict is the one tested", sprintf("direct calls=%d", nRev), nRev > 0)
 }
 
 // isVerifiedLeaf: v is VerifiedChains[0][0] (load of IndexAddr(load of IndexAddr(param/field VerifiedChains,0),0))
